@@ -229,6 +229,21 @@ def run(chk):
                 chk.violation("exit-status|%s" % (code if abs(code) < 1000 else "big"),
                               "exit(%s) ended with status %s, stdout %r" % (code, rr["rc"], rr["out"][:40]),
                               {"src": open(path).read(), "rc": rr["rc"], "stderr": rr["err"].decode("utf-8", "replace")[-300:]})
+        # printing while stdout / stderr cannot be written (full device) must not abort the interpreter either
+        for k, prog in enumerate(["puts(\"x\" * 20000); puts(1);", "print(\"{}\", \"y\" * 20000);", "println(\"{}\", \"z\" * 20000);",
+                                  "let i = 0; while i < 3000 { puts(\"line \", i); i = i + 1; }", "puts(); puts([1, 2, 3], map {1: 2});",
+                                  "write(stdout, \"w\" * 20000); flush(stdout); puts(\"after\");", "input(\"prompt> \");"]):
+            with open(path, "w") as f:
+                f.write(prog)
+            for rel in (False, True):
+                with open("/dev/full", "wb") as full:
+                    rr = core.run_binary([path], stdin_data=b"answer\n", release=rel, timeout=30, stdout_file=full)
+                if rr["timeout"]:
+                    chk.inconc("timeout (full stdout)")
+                    continue
+                chk.observed(("full-stdout", k, rel))
+                if core.crashed(rr):
+                    report_crash(chk, prog + "   [stdout = /dev/full]", rr, "full-stdout")
         # confirm in-process suspects on the real binary, both profiles
         seen = {}
         for src, r, cls in suspects:
